@@ -4,26 +4,6 @@
 use super::common::*;
 use super::*;
 
-/// quick state: 3 entries in a 4-slot table, promotion history so that bucket order != recency order
-pub fn state_q3() -> LruCache<u8, SV, BH> {
-    let mut c = prebuilt(3, 4);
-    c.touch(&0);                 // order is now 1, 2, 0
-    c
-}
-/// thorough state: n <= max_n entries (symbolic), optional promotion, placement/tombstones non-deterministic
-pub fn state_t(max_n: u8) -> LruCache<u8, SV, BH> {
-    nondet(true, true);
-    let n: u8 = kani::any();
-    kani::assume(n <= max_n);
-    let mut c = prebuilt(n, 4);
-    if n >= 2 && kani::any() {
-        let k: u8 = kani::any();
-        kani::assume(k < n);
-        c.touch(&k);
-    }
-    c
-}
-
 // ---- lru_ptr / mru_ptr: Some(p) designating list[0] / list.last() iff non-empty ----------------
 fn body_lru_mru_ptr(c: LruCache<u8, SV, BH>) {
     coherent(&c);
@@ -286,4 +266,34 @@ fn t_sub_shrink_to() {
     assert!(c.capacity() <= cap_before, "shrink_to raised the capacity");
     let want = if min > 2 { min } else { 2 };
     assert!(c.capacity() >= want || c.capacity() == cap_before);
+}
+
+// ---- hash routing: every hash of a key must be computed the same way ---------------------------------
+// A BuildHasher may override `hash_one`; here it deliberately differs from the streaming hasher, so a
+// cache that files keys under one and looks them up under the other is caught by the double's monitor.
+#[derive(Default, Clone)]
+pub struct SplitBH;
+impl BuildHasher for SplitBH {
+    type Hasher = IdHasher;
+    fn build_hasher(&self) -> IdHasher { IdHasher(0) }
+    fn hash_one<T: Hash>(&self, x: T) -> u64 where Self: Sized {
+        let mut h = IdHasher(0);
+        x.hash(&mut h);
+        h.finish() ^ 0x55
+    }
+}
+#[kani::proof]
+#[kani::unwind(6)]
+fn q_sub_split_hasher() {
+    let mut c: LruCache<u8, SV, SplitBH> = prebuilt_in::<SplitBH>(2, 4);
+    coherent(&c);
+    let k: u8 = kani::any();
+    kani::assume(k < 3);
+    assert!(c.contains(&k) == (k < 2));
+    assert!(c.peek(&k).is_some() == (k < 2));
+    let _ = c.try_reallocate(4);
+    coherent(&c);
+    let r = c.remove_entry(&k);
+    assert!(r.is_some() == (k < 2));
+    coherent(&c);
 }
